@@ -9,3 +9,11 @@ for p in sys.argv[1:]:
         for k, c in v['classes'].items():
             if k.startswith('FAIL') or k.startswith('KNOWN'):
                 print('      ', k, c)
+
+    if '-x' in sys.argv:
+        pass
+    for v in e['coverage'].get('violation_examples', []):
+        c = v['case']
+        if isinstance(c, dict):
+            c = {k: (x if not isinstance(x, list) or len(x) < 6 else x[:3] + ['...']) for k, x in c.items() if k not in ('cls', 'want', 'lines')}
+        print('   EX', v['cls'], '|', str(c)[:260], '| exp', v['expected'][:120], '| act', v['actual'][:160])
